@@ -33,8 +33,13 @@ def gen_group(r, agg):
   n = r.choice([0, 1, 2, 3, 3, 4, 4, 5, 6, 7, 9, 12])
   if agg in ('ArgMin', 'ArgMax'):
     kind = r.choice(['int', 'int', 'float', 'str'])
-    if kind == 'int':
+    if kind == 'int' and r.random() < 0.25:
+      # zero as the extreme value: a running best of 0 must not be mistaken for "none yet"
+      vals = r.sample(range(-12, 1) if r.random() < 0.5 else range(0, 13), min(n, 12))
+    elif kind == 'int':
       vals = r.sample(range(-20, 40), n)
+    elif kind == 'float' and r.random() < 0.25:
+      vals = [x / 2.0 for x in r.sample(range(-12, 1) if r.random() < 0.5 else range(0, 13), min(n, 12))]
     elif kind == 'float':
       vals = [x / 4.0 for x in r.sample(range(-40, 80), n)]
     else:
@@ -181,6 +186,8 @@ def gen_table(r, vtype='int'):
     vs_ = [x / 4.0 for x in r.sample(range(-32, 240), n)]   # quarters: sums are exact in binary
   elif vtype == 'str':
     vs_ = r.sample(STR_VALUES, n)
+  elif r.random() < 0.2:
+    vs_ = r.sample(range(-12, 1) if r.random() < 0.5 else range(0, 13), n)   # zero is the extreme value
   else:
     vs_ = r.sample(range(-8, 60), n)       # globally distinct: ties are excluded by the property
   # Avg must be exactly representable: keep values integral, compare with tolerance 1e-9
@@ -321,7 +328,9 @@ def gen_scalars(r, n):
           ('%s - (%s - %s)', a - (b - c)), ('%s - %s - %s', a - b - c), ('%s * (%s + %s)', a * (b + c)),
           ('%s * %s + %s', a * b + c), ('%s - %s * %s', a - b * c), ('(%s - %s) * %s', (a - b) * c),
           ('%s + (%s - %s) * %s' % ('%s', '%s', '%s', lit(2)), a + (b - c) * 2),
-          ('0 - %s - %s + %s', 0 - a - b + c)])
+          ('0 - %s - %s + %s', 0 - a - b + c),
+          ('-(%s + %s) + %s', -(a + b) + c), ('-(%s - %s) - %s', -(a - b) - c),
+          ('%s - (-(%s - %s))', a - (-(b - c))), ('-(%s * %s) + %s', -(a * b) + c)])
       cells.append(['Nested', form % (lit(a), lit(b), lit(c)), val])
     elif f == 'Boundary':
       which = r.choice(['LastElement', 'LastSubscript', 'SortStr', 'InStr', 'EqualLeast', 'EqualGreatest',
